@@ -277,10 +277,26 @@ def mergeMid (self other : Mol) (nrexcl : Option Int) (offset roff coff : Int) :
   { self with nrexcl := nrexcl, nodes := self.nodes ++ newNodes other offset roff coff,
               inters := self.inters ++ other.inters.map (renameInter other.keys offset) }
 
+/-- the log-entry loop of the merge: the resulting entries and whether it ran to the end -/
+def mergeLogsOf (self other : Mol) (offset : Int) : Logs × Bool :=
+  mergeLogs self.logs other.keys offset (flattenLogs other.logs)
+
+/-- outcome of a merge whose force fields and nrexcl agree: KeyError iff the log-entry loop fails -/
+def mergeOut (self other : Mol) (offset : Int) : Outcome :=
+  if (mergeLogsOf self other offset).2 then .ok else .keyerror
+
 def mergeResult (self other : Mol) (nrexcl : Option Int) (offset roff coff : Int) : Mol :=
   { (mergeMid self other nrexcl offset roff coff).addEdges (renamedEdges other.keys offset other.edges) with
     cites := unionSet self.cites other.cites,
-    maxNode := some (offset + (other.nodes.length : Int)) }
+    maxNode := some (offset + (other.nodes.length : Int)),
+    eattr := self.eattr ++ renameEAttr other.keys offset other.eattr,
+    logs := (mergeLogsOf self other offset).1 }
+
+/-- every format map of every log entry mentions only atoms of the molecule.  NOT part of the
+invariant: `remove_node` leaves the log entries alone (finding F-C12-6). -/
+def Mol.LogOk (m : Mol) : Prop := ∀ le ∈ flattenLogs m.logs, ∀ fa ∈ le.2.2, ∀ p ∈ fa, p.2 ∈ m.keys
+
+instance (m : Mol) : Decidable m.LogOk := by unfold Mol.LogOk; exact inferInstance
 
 theorem newNodes_keys_mem (other : Mol) (offset roff coff x : Int) :
     x ∈ (newNodes other offset roff coff).map Prod.fst ↔
@@ -289,7 +305,8 @@ theorem newNodes_keys_mem (other : Mol) (offset roff coff x : Int) :
 
 theorem mergeCore_eq {self other : Mol} (ho : other.Wf) (nrexcl : Option Int) (offset roff coff : Int)
     (hfr : ∀ x ∈ self.keys, x ≤ offset) :
-    self.mergeCore other nrexcl offset roff coff = (mergeResult self other nrexcl offset roff coff, .ok) := by
+    self.mergeCore other nrexcl offset roff coff =
+      (mergeResult self other nrexcl offset roff coff, mergeOut self other offset) := by
   unfold Mol.mergeCore
   dsimp only
   rw [renameInters_eq other.keys offset other.inters ho.2.2, renameEdges_eq other.keys offset other.edges ho.2.1]
@@ -303,21 +320,51 @@ theorem mergeCore_eq {self other : Mol} (ho : other.Wf) (nrexcl : Option Int) (o
     omega
 
 theorem merge_eq {self other : Mol} (hs : self.Inv) (ho : other.Inv)
-    (hn : mergeNrexcl self other = other.nrexcl) :
+    (hf : self.ff = other.ff) (hn : mergeNrexcl self other = other.nrexcl) :
     self.merge other =
-      (mergeResult self other other.nrexcl self.offset self.shiftBy.1 self.shiftBy.2, .ok) := by
+      (mergeResult self other other.nrexcl self.offset self.shiftBy.1 self.shiftBy.2,
+       mergeOut self other self.offset) := by
   unfold Mol.merge
   dsimp only
-  rw [if_neg (by simpa using hn), mergeOffs_eq hs.2]
+  rw [if_neg (by simpa using hf), if_neg (by simpa using hn), mergeOffs_eq hs.2]
   dsimp only
   rw [hn]
   exact mergeCore_eq ho.1 _ _ _ _ (fun x hx => offset_ge x hx)
 
-theorem merge_err {self other : Mol} (hn : mergeNrexcl self other ≠ other.nrexcl) :
+theorem merge_err {self other : Mol} (hn : self.ff ≠ other.ff ∨ mergeNrexcl self other ≠ other.nrexcl) :
     self.merge other = (self, .valueerror) := by
   unfold Mol.merge
   dsimp only
-  rw [if_pos hn]
+  by_cases hf : self.ff ≠ other.ff
+  · rw [if_pos hf]
+  · rw [if_neg hf]
+    rcases hn with hn | hn
+    · exact absurd hn hf
+    · rw [if_pos hn]
+
+/-- the log-entry loop runs to the end when every format map mentions only keys of `keys` -/
+theorem mergeLogs_ok (acc : Logs) (keys : List Int) (offset : Int) (l : List (Int × String × List FmtArg))
+    (h : ∀ le ∈ l, ∀ fa ∈ le.2.2, ∀ p ∈ fa, p.2 ∈ keys) : (mergeLogs acc keys offset l).2 = true := by
+  induction l generalizing acc with
+  | nil => rfl
+  | cons le t ih =>
+    obtain ⟨lv, e, args⟩ := le
+    have hargs : args.mapM (renameArg keys offset) =
+        some (args.map (fun fa => fa.map (fun p => (p.1, corr keys offset p.2)))) := by
+      apply mapM_option_eq
+      intro fa hfa
+      unfold renameArg
+      apply mapM_option_eq
+      intro p hp
+      rw [corrOf_of_mem keys offset p.2 (h (lv, e, args) List.mem_cons_self fa hfa p hp)]
+      rfl
+    unfold mergeLogs
+    rw [hargs]
+    exact ih _ (fun le hle => h le (List.mem_cons_of_mem _ hle))
+
+theorem mergeOut_ok {self other : Mol} (hl : other.LogOk) (offset : Int) : mergeOut self other offset = .ok := by
+  unfold mergeOut mergeLogsOf
+  rw [mergeLogs_ok _ _ _ _ hl]; rfl
 
 /-! ### properties of the merge result -/
 
@@ -438,15 +485,62 @@ theorem mergeResult_inv {self other : Mol} (hs : self.Inv) (ho : other.Inv) (nre
   exact mergeResult_maxKey nrexcl roff coff ho.1 hne
 
 theorem merge_inv {self other : Mol} (hs : self.Inv) (ho : other.Inv) : (self.merge other).1.Inv := by
-  by_cases hn : mergeNrexcl self other = other.nrexcl
-  · rw [merge_eq hs ho hn]; exact mergeResult_inv hs ho _ _ _
-  · rw [merge_err hn]; exact hs
+  by_cases hf : self.ff = other.ff
+  · by_cases hn : mergeNrexcl self other = other.nrexcl
+    · rw [merge_eq hs ho hf hn]; exact mergeResult_inv hs ho _ _ _
+    · rw [merge_err (Or.inr hn)]; exact hs
+  · rw [merge_err (Or.inl hf)]; exact hs
 
 theorem merge_ok_eq {self other : Mol} (hs : self.Inv) (ho : other.Inv)
     (hok : (self.merge other).2 = .ok) :
     (self.merge other).1 = mergeResult self other other.nrexcl self.offset self.shiftBy.1 self.shiftBy.2 := by
-  by_cases hn : mergeNrexcl self other = other.nrexcl
-  · rw [merge_eq hs ho hn]
-  · rw [merge_err hn] at hok; cases hok
+  by_cases hf : self.ff = other.ff
+  · by_cases hn : mergeNrexcl self other = other.nrexcl
+    · rw [merge_eq hs ho hf hn]
+    · rw [merge_err (Or.inr hn)] at hok; cases hok
+  · rw [merge_err (Or.inl hf)] at hok; cases hok
+
+/-! ### a molecule merged into itself -/
+
+theorem upsert_wf {m : Mol} (h : m.Wf) (k : Int) (a : Attrs) (mx : Option Int) :
+    ({ m with nodes := upsert m.nodes k a, maxNode := mx } : Mol).Wf :=
+  Mol.wf_grow h _ _ (upsert_nodup _ _ _ h.1) (fun x hx => (upsert_mem_keys _ _ _ _).mpr (Or.inl hx))
+
+theorem selfMerge_inv {m : Mol} (h : m.Inv) : m.selfMerge.1.Inv := by
+  unfold Mol.selfMerge
+  split
+  · exact merge_inv h h
+  · rename_i first hn
+    split
+    · exact merge_inv h h
+    · rename_i ty i rest hi
+      rw [mergeOffs_eq h.2]
+      dsimp only
+      have hne : m.nodes ≠ [] := by rw [hn]; simp
+      refine ⟨⟨upsert_nodup _ _ _ h.1.1, ?_, ?_⟩, ?_⟩
+      · intro e he
+        exact ⟨(upsert_mem_keys _ _ _ _).mpr (Or.inl (h.1.2.1 e he).1),
+               (upsert_mem_keys _ _ _ _).mpr (Or.inl (h.1.2.1 e he).2)⟩
+      · intro ti hti a ha
+        have hti' : ti ∈ m.inters ++ (m.inters.filter (fun ti => ti.1 == ty)).map
+            (fun ti => (ti.1, { ti.2 with atoms := ti.2.atoms.map (fun _ => m.offset + 1) })) := hti
+        rcases List.mem_append.mp hti' with h' | h'
+        · exact (upsert_mem_keys _ _ _ _).mpr (Or.inl (h.1.2.2 ti h' a ha))
+        · obtain ⟨tj, _, rfl⟩ := List.mem_map.mp h'
+          simp only [List.mem_map] at ha
+          obtain ⟨_, _, rfl⟩ := ha
+          exact (upsert_mem_keys _ _ _ _).mpr (Or.inr rfl)
+      · intro _ k hk
+        have hk' : some (m.offset + 1) = some k := hk
+        cases hk'
+        rw [maxKey_eq_some_iff]
+        refine ⟨(upsert_mem_keys _ _ _ _).mpr (Or.inr rfl), ?_⟩
+        intro x hx
+        rcases (upsert_mem_keys _ _ _ _).mp hx with hx | rfl
+        · have := offset_ge x hx; omega
+        · exact Int.le_refl _
+  · rw [mergeOffs_eq h.2]
+    dsimp only
+    exact Mol.inv_of_wf_none (upsert_wf h.1 _ _ _) rfl
 
 end C12
